@@ -49,6 +49,7 @@ type BridgeCfg struct {
 	NoPrices bool
 	NoPriceFor []string // oracle price names missing from genesis (the others are present)
 	ExecFeePaid int64   // gas cost (wei) the relayer reports for an executed batch; 0 = 3
+	ExecFeePaidStr string // ... as a decimal string (values beyond int64), "" = ExecFeePaid
 	ParamsMod func(p *mhubtypes.Params) // applied to the genesis params last
 	ParamChanges [][2]string // governance parameter changes (key, JSON value) of the mhub2 subspace offered as op Param(i)
 	DepUnlisted bool // deposits may name a destination chain on which the token is not listed (the deposit then fails as a whole)
@@ -389,6 +390,20 @@ func (b *Bridge) NewGhost(in *hub.Instance) Ghost {
 		}
 		g.Custody[t.Chain+"|"+t.ExtID] = ext
 	}
+	// transfers that came with the genesis file wait in their pools: they are transfers like any other
+	for ch, l := range b.view(in).Pool {
+		for _, e := range l {
+			den := ""
+			for _, t := range b.Cfg.Tokens {
+				if t.Chain == ch && strings.EqualFold(t.ExtID, e.Token.ExternalTokenId) {
+					den = t.Denom
+				}
+			}
+			taken := refConvert(e.Token.Amount.Add(e.Fee.Amount).Add(e.ValCommission.Amount), b.token(ch, den).Dec, 18)
+			g.Xfers[fmt.Sprintf("%s/%d", ch, e.Id)] = &xfer{Chain: ch, ID: e.Id, Sender: e.Sender, TxHash: e.TxHash, Denom: den, Taken: taken.String(),
+				Amt: e.Token.Amount.String(), Fee: e.Fee.Amount.String(), Com: e.ValCommission.Amount.String(), Origin: "hub", OriginAddr: e.Sender, Where: "pool", Created: in.Time}
+		}
+	}
 	for _, c := range AllExtChains {
 		g.LastSeq[c] = outgoingSeq(in, c)
 		if s, ok := b.Cfg.GenesisSeq[c]; ok {
@@ -518,6 +533,14 @@ func (b *Bridge) Ops(s *HState) []engine.Op {
 			for u := range b.Usr {
 				ops = append(ops, engine.OpN("Cancel", id.ch, u, id.id))
 			}
+			if on("CancelUpper") {
+				// the owner's cancel with the signer spelled in the upper-case form of bech32 (the same account)
+				for u := range b.Usr {
+					if x := g.Xfers[fmt.Sprintf("%s/%d", id.ch, id.id)]; x != nil && x.Sender == b.Usr[u].String() {
+						ops = append(ops, engine.OpN("CancelUpper", id.ch, u, id.id))
+					}
+				}
+			}
 			if on("CancelWrongChain") {
 				for _, ch := range c.SendChains {
 					if ch != id.ch {
@@ -612,6 +635,9 @@ func (b *Bridge) Ops(s *HState) []engine.Op {
 			ops = append(ops, engine.OpN("Rotate", k))
 		}
 	}
+	if on("KeysElsewhere") {
+		ops = append(ops, engine.OpN("KeysElsewhere", "bsc2"), engine.OpN("KeysElsewhere", "bs"))
+	}
 	if on("Param") {
 		for i := range c.ParamChanges {
 			ops = append(ops, engine.OpN("Param", i))
@@ -626,6 +652,9 @@ func (b *Bridge) Ops(s *HState) []engine.Op {
 		for _, row := range c.Repoint {
 			ops = append(ops, engine.OpN("Repoint", row))
 		}
+	}
+	if on("Renumber") {
+		ops = append(ops, engine.OpN("Renumber", 0))
 	}
 	if on("ColdStorage") {
 		for _, ch := range c.SendChains {
@@ -730,7 +759,7 @@ func (b *Bridge) Do(in *hub.Instance, gg Ghost, op engine.Op, st *engine.Step) {
 			b.doSend(in, g, engine.OpN("Send", op.S[0], op.S[1], 0, 0, 0), pre, preBal, &s2)
 		}
 		st.Obs = fmt.Sprint("many", op.I[0])
-	case "Cancel":
+	case "Cancel", "CancelUpper":
 		b.doCancel(in, g, op, pre, preBal, st)
 	case "ReqBatch":
 		ch, d := op.S[0], op.S[1]
@@ -808,6 +837,15 @@ func (b *Bridge) Do(in *hub.Instance, gg Ghost, op engine.Op, st *engine.Step) {
 		if r.OK() {
 			st.Count("key_rotations", 1)
 		}
+	case "KeysElsewhere":
+		// validator B registers keys for a chain id the bridge does not list (SetDelegateKeys takes any chain id)
+		v := b.Vals[1]
+		seq, _ := in.Acc.GetSequence(in.Ctx(), v.Acc)
+		r := in.DeliverMsg(hub.DelegateKeysMsg(in.Cdc, v, op.S[0], hub.User("orch-"+op.S[0]), hub.EthKey("key-"+op.S[0]), seq))
+		st.Obs = fmt.Sprint(r.OK())
+		if r.OK() {
+			st.Count("keys_registered_for_unlisted_chain_ids", 1)
+		}
 	case "Holders":
 		epoch := in.Oracle.GetCurrentEpoch(in.Ctx())
 		for _, v := range b.Vals {
@@ -821,13 +859,18 @@ func (b *Bridge) Do(in *hub.Instance, gg Ghost, op engine.Op, st *engine.Step) {
 		if err == nil {
 			st.Count("parameter_changes", 1)
 		}
-	case "Relist", "Repoint":
+	case "Relist", "Repoint", "Renumber":
 		// governance replaces the token list. Relist: the row is removed if listed, put back if removed. Repoint: the row
-		// keeps its token id and gets another external id (the token migrated to a new contract) - and back
+		// keeps its token id and gets another external id (the token migrated to a new contract) - and back. Renumber: the
+		// same listings (denom, chain, external id, decimals) are stored under fresh row ids (the list was dropped and
+		// re-entered) - and back
 		row := b.Cfg.Tokens[op.I[0]]
 		key := row.Chain + "|" + row.Denom
 		if op.Kind == "Repoint" {
 			key = "repoint|" + key
+		}
+		if op.Kind == "Renumber" {
+			key = "renumber"
 		}
 		want := !g.Delisted[key]
 		var infos []*mhubtypes.TokenInfo
@@ -840,7 +883,11 @@ func (b *Bridge) Do(in *hub.Instance, gg Ghost, op engine.Op, st *engine.Step) {
 			if rk := "repoint|" + k; (rk == key && want) || (rk != key && g.Delisted[rk]) {
 				ext = hub.HexAddr("migrated-" + k)
 			}
-			infos = append(infos, &mhubtypes.TokenInfo{Id: uint64(i + 1), Denom: t.Denom, ChainId: t.Chain, ExternalTokenId: ext,
+			id := uint64(i + 1)
+			if (op.Kind == "Renumber" && want) || (op.Kind != "Renumber" && g.Delisted["renumber"]) {
+				id += 100
+			}
+			infos = append(infos, &mhubtypes.TokenInfo{Id: id, Denom: t.Denom, ChainId: t.Chain, ExternalTokenId: ext,
 				ExternalDecimals: t.Dec, Commission: sdk.NewDec(t.CommissionBP).QuoInt64(10000)})
 		}
 		err := in.Proposal(&mhubtypes.TokenInfosChangeProposal{NewInfos: &mhubtypes.TokenInfos{TokenInfos: infos}})
@@ -945,7 +992,25 @@ func (b *Bridge) doSend2(in *hub.Instance, g *bridgeGhost, op engine.Op, st *eng
 func (b *Bridge) doCancel(in *hub.Instance, g *bridgeGhost, op engine.Op, pre *view, preBal map[string]sdk.Coins, st *engine.Step) {
 	ch := op.S[0]
 	u, id := op.I[0], uint64(op.I[1])
-	r := in.DeliverMsg(mhubtypes.NewMsgCancelSendToExternal(id, mhubtypes.ChainID(ch), b.Usr[u]))
+	msg := mhubtypes.NewMsgCancelSendToExternal(id, mhubtypes.ChainID(ch), b.Usr[u])
+	if op.Kind == "CancelUpper" {
+		// who the original sender is does not depend on how the account is spelled: the outcome must be that of the
+		// canonical spelling
+		snap, seq := in.Snapshot(), in.AnteSeq
+		lower := in.DeliverMsg(msg).OK()
+		in.Restore(snap)
+		in.AnteSeq = seq
+		msg.Sender = strings.ToUpper(msg.Sender)
+		if err := msg.ValidateBasic(); err == nil {
+			if upper := in.DeliverMsg(msg).OK(); upper != lower {
+				st.Violate("C12", "cancel_depends_on_the_spelling_of_the_sender", "cancelSendToExternal", "cancel of %s/%d by its sender %s: accepted=%v in the canonical spelling, accepted=%v in upper case", ch, id, b.Usr[u], lower, upper)
+			}
+			in.Restore(snap)
+			in.AnteSeq = seq
+		}
+		msg.Sender = b.Usr[u].String()
+	}
+	r := in.DeliverMsg(msg)
 	st.Obs = fmt.Sprint(r.OK())
 	if r.OK() {
 		st.Count("cancels_ok", 1)
@@ -995,6 +1060,13 @@ func (b *Bridge) doDeposit(in *hub.Instance, g *bridgeGhost, op engine.Op, st *e
 }
 
 func (b *Bridge) feePaid() sdk.Int {
+	if b.Cfg.ExecFeePaidStr != "" {
+		v, ok := sdk.NewIntFromString(b.Cfg.ExecFeePaidStr)
+		if !ok {
+			panic("bad ExecFeePaidStr")
+		}
+		return v
+	}
 	if b.Cfg.ExecFeePaid > 0 {
 		return sdk.NewInt(b.Cfg.ExecFeePaid)
 	}
@@ -1182,7 +1254,7 @@ func bridgeCfgFor(prop, tier string) (BridgeCfg, engine.Config) {
 			ec.MaxDepth = 8
 		}
 	case "C12":
-		cfg.Ops = opsSet("Next", "Send", "Cancel", "CancelWrongChain", "ReqBatch", "Deposit", "NextTimeout", "NextAtTimeout", "ExtAdvance")
+		cfg.Ops = opsSet("Next", "Send", "Cancel", "CancelUpper", "CancelWrongChain", "ReqBatch", "Deposit", "NextTimeout", "NextAtTimeout", "ExtAdvance")
 		// third seed: the module-created refund transfer (no refund destination) and a user's transfer of a smaller
 		// token id sit in two ethereum batches whose timeout the external chain has passed (not yet observed)
 		cfg.Seeds = [][]engine.Op{{}, seedRefundBatched, append(append([]engine.Op{}, seedRefundBatched...),
@@ -1272,7 +1344,14 @@ func execCases(cfg BridgeCfg, ec engine.Config, extra ...string) []MultiCase {
 	lm.DepChains = []string{"minter"}
 	lm.DepDests = []string{"hub"}
 	lm.DepFees = []int64{0}
+	// the execution event carries a gas cost of 2^255 wei (Validate puts no bound on it): valuing it overflows the
+	// 256-bit integers - a failure of the payouts that is not an error value but an arithmetic panic
+	hf := gl
+	hf.Relist = nil
+	hf.ExecFeePaidStr = "57896044618658097711785492504343953926634992332820282019728792003956564819968"
+	hf.Ops = opsSet(append([]string{"Next", "Exec", "ExtAdvance", "Deposit"}, extra...)...)
 	return []MultiCase{
+		{Name: "an executed batch whose reported gas cost is 2^255", Spec: NewBridge(hf), Cfg: ec},
 		{Name: "a token without a Minter row", Spec: NewBridge(nm), Cfg: ec},
 		{Name: "token list changed by governance while a batch of the token is pending", Spec: NewBridge(gl), Cfg: ec},
 		{Name: "a Minter batch executed long after its nominal timeout", Spec: NewBridge(lm), Cfg: ec},
@@ -1519,8 +1598,17 @@ func init() {
 		ecro := ec
 		ecro.MaxDepth = 2
 		ecro.Deadline = ec.Deadline / 4
+		// governance has taken the only token of a chain off the list (events of that chain were observed before): the
+		// chain's counters and cursors are bridge state all the same
+		nt := cfg
+		nt.Relist = []int{1} // hub @ bsc, the only bsc row
+		nt.Ops = opsSet("Next", "Deposit", "Relist")
+		nt.DepChains = []string{"bsc"}
+		nt.DepDests = []string{"hub"}
+		nt.Seeds = [][]engine.Op{{engine.OpN("Deposit", "bsc", "hub", "hub", 0, 0), engine.OpN("Next", 5), engine.OpN("Relist", 1)}}
 		return []MultiCase{{Name: "bridge histories, oracle prices from genesis", Spec: NewBridge(cfg), Cfg: ec}, {Name: "holders adopted, no prices", Spec: NewBridge(ho), Cfg: ech},
 			{Name: "token list stored in descending id order", Spec: NewBridge(ro), Cfg: ecro},
+			{Name: "a chain with observed events whose only token was taken off the list", Spec: NewBridge(nt), Cfg: ecro},
 			{Name: "a lagging validator, rotated delegate keys", Spec: NewBridge(lr), Cfg: ec},
 			pcase("outgoing transfer timeout 0", func(p *mhubtypes.Params) { p.OutgoingTxTimeout = 0 }),
 			pcase("no chains (bridge paused)", func(p *mhubtypes.Params) { p.Chains = []string{} }),
@@ -1607,7 +1695,16 @@ func init() {
 		ecg := ec
 		ecg.MaxDepth = 3
 		ecg.Deadline = ec.Deadline / 3
+		// governance re-enters the token list under fresh row ids while transfers wait in a pool: a batch is a matter of
+		// chain and external token id - the waiting transfers are ranked with the new ones, whatever row they were made under
+		rn := cfg
+		rn.Ops = opsSet("Next", "Send", "ReqBatch", "Renumber")
+		rn.SendChains = []string{"ethereum"}
+		rn.SendDenoms = []string{"hub"}
+		rn.Users = 1
+		rn.Seeds = [][]engine.Op{{}, {engine.OpN("Send", "ethereum", "hub", 0, 0, len(cfg.Fees)-1), engine.OpN("Renumber", 0)}}
 		return []MultiCase{{Name: "pools and permissionless requests", Spec: NewBridge(cfg), Cfg: ec},
+			{Name: "the token list re-entered under fresh row ids while transfers wait", Spec: NewBridge(rn), Cfg: ect},
 			{Name: "6-decimals token, withdrawals of less than one external unit", Spec: NewBridge(du), Cfg: ecs}, {Name: "batches timing out and being rebuilt", Spec: NewBridge(to), Cfg: ect},
 			{Name: "started from a genesis file with two pending Minter batches (sequence counter 7)", Spec: NewBridge(gi), Cfg: ecg},
 			{Name: "two withdrawals of one transaction, one cancelled", Spec: NewBridge(sh), Cfg: ecs},
@@ -1670,7 +1767,28 @@ func init() {
 					}
 				}
 			}
+			// a chain started from a genesis file that lists two pending transfers in ethereum's pool; the entries name no chain of
+			// their own / another chain (the enclosing external state says where they wait - InitGenesis files them there)
+			gp := cfg
+			gp.Users = 1
+			gp.Ops = opsSet("Next", "NextTimeout", "Cancel", "ReqBatch", "Exec", "ExtAdvance")
+			gp.SendChains = []string{"ethereum"}
+			gp.SendDenoms = []string{"hub"}
+			gp.Seeds = [][]engine.Op{{}, {engine.OpN("Next", 5)}}
+			gp.GenesisMod = func(g *hub.Genesis) {
+				for _, es := range g.Hub.ExternalStates {
+					if es.ChainId != "ethereum" {
+						continue
+					}
+					for i, inner := range []string{"", "bsc"} {
+						es.UnbatchedSendToExternalTxs = append(es.UnbatchedSendToExternalTxs, &mhubtypes.SendToExternal{Id: uint64(i + 1), Sender: hub.User("u1").String(), ChainId: inner, ExternalRecipient: hub.HexAddr("imp"),
+							Token: mhubtypes.ExternalToken{Amount: sdk.NewInt(990), ExternalTokenId: EthHub, TokenId: 1}, Fee: mhubtypes.ExternalToken{Amount: sdk.NewInt(int64(7 + i)), ExternalTokenId: EthHub, TokenId: 1},
+							ValCommission: mhubtypes.ExternalToken{Amount: sdk.NewInt(10), ExternalTokenId: EthHub, TokenId: 1}, TxHash: fmt.Sprintf("IMPORTED%d", i+1), RefundAddress: hub.User("u1").String(), RefundChainId: "hub", CreatedAt: uint64(hub.T0)})
+					}
+				}
+			}
 			cases := []MultiCase{{Name: "bridge histories", Spec: NewBridge(cfg), Cfg: ec},
+				{Name: "started from a genesis file with two transfers waiting in ethereum's pool", Spec: NewBridge(gp), Cfg: ecd},
 				{Name: "token migrated to a new contract while a transfer towards the old one is pending", Spec: NewBridge(rp), Cfg: ec},
 				{Name: "the listings of one denom share one token id (6 / 18 / 18 decimals)", Spec: NewBridge(du), Cfg: ec},
 				{Name: "token taken off the originating chain's list while a transfer from there is pending", Spec: NewBridge(dl), Cfg: ecd}}
